@@ -1471,6 +1471,8 @@ func main() {
 	dupMonitor(f, res)
 	tm("dup", t0)
 	tablesTie(f, res)
+	approxTie(f, res)
+	withinTie(f, res)
 	t0 = time.Now()
 	pullidMonitor(f, res, rng)
 	tm("pullid", t0)
@@ -1648,21 +1650,26 @@ func replay(f lib.Flags) int {
 		Mode string `json:"mode"`
 		Scenario
 	}
-	if err := json.Unmarshal(raw, &in); err != nil || (len(in.Writers) == 0 && in.Mode != "lossy-slow" && in.Mode != "masks" && in.Mode != "lossy-seed-dup" && in.Mode != "include-table" && in.Mode != "merge-table" && in.Mode != "adapter-openclose" && in.Mode != "pullid" && in.Mode != "trait-tolerance") {
+	if err := json.Unmarshal(raw, &in); err != nil || (len(in.Writers) == 0 && in.Mode != "lossy-slow" && in.Mode != "masks" && in.Mode != "lossy-seed-dup" && in.Mode != "include-table" && in.Mode != "merge-table" && in.Mode != "approx-table" && in.Mode != "adapter-openclose" && in.Mode != "pullid" && in.Mode != "trait-tolerance") {
 		fmt.Println("replay: no concrete input in file (", rp.Kind, ")")
 		return 2
 	}
-	if in.Mode == "include-table" || in.Mode == "merge-table" {
+	if in.Mode == "include-table" || in.Mode == "merge-table" || in.Mode == "approx-table" {
 		// the tables are small: the whole enumeration is re-run
 		r := lib.NewResult("C03", f)
-		tablesTie(f, r)
+		if in.Mode == "approx-table" {
+			approxTie(f, r)
+			withinTie(f, r)
+		} else {
+			tablesTie(f, r)
+		}
 		for _, m := range r.Monitors {
 			for _, v := range m.Violations {
 				fmt.Printf("STILL FAILS %s: %s (expected %s, observed %s)\n", v.Signature, v.What, v.Expected, v.Observed)
 				return 1
 			}
 		}
-		fmt.Println("replay: the include / merge tables satisfy their view specifications now")
+		fmt.Println("replay: the include / merge / float-approx tables satisfy their specifications now")
 		return 0
 	}
 	if in.Mode == "adapter-openclose" {
